@@ -8,6 +8,7 @@ Oracles: the constraints themselves; per-iteration loss monotonicity; active-set
 rows (last P-step); feasible-candidate bound for the intensity refit (last X-step); bit-identical repeat for the seed.
 """
 
+import copy
 import itertools
 import warnings
 
@@ -43,6 +44,8 @@ OPTIONS = {
     # optimality of the factor fitted last can be decided to 1e-3
     "loose-ftol": dict(ftol=0.1, solver="CLARABEL"),
     "loose-xtol": dict(xtol=0.1, solver="CLARABEL"),
+    # per-sample weights registered together with the targets (register_targets(B, W) followed by fit_decomposition())
+    "registered-weights": dict(_registered=True),
 }
 
 
@@ -114,6 +117,7 @@ def run_unit(unit, rec):
     for o in unit["option"].split("+"):
         kw.update(OPTIONS[o])
     omit = kw.pop("_omit_n_layers", False)
+    registered = kw.pop("_registered", False)
     est = B.make_est(spec, rec=rec)
     rec.state(B.state_key(est))
     Abar, c0, lo, hi = B.model_of(spec)
@@ -122,6 +126,9 @@ def run_unit(unit, rec):
     Bb = T - c0
     lbp, ubp = kw.get("lbp", 0.0), kw.get("ubp", 1.0)
     wv = np.ones(m) if spec.get("w") is None else np.broadcast_to(np.asarray(B.arr(spec["w"]), dtype=float), (m,))
+    Wm = np.broadcast_to(wv, T.shape).copy()
+    if registered:
+        Wm = np.array([np.roll(np.array([3.0, 0.4, 1.5, 0.6][:m]), k_) * (1.0 + 0.25 * (k_ % 3)) for k_ in range(len(T))])
     try:
         from dreye.api import _verif
     except Exception:  # noqa
@@ -151,7 +158,13 @@ def run_unit(unit, rec):
         with warnings.catch_warnings():
             warnings.simplefilter("ignore")
             try:
-                X, P, Bp = est.fit_decomposition(T, **call)
+                if registered:
+                    est_r = copy.deepcopy(est)
+                    est_r.register_targets(T, Wm)
+                    est_r.fit_decomposition(**call)
+                    X, P, Bp = est_r.X, est_r.P, est_r.B
+                else:
+                    X, P, Bp = est.fit_decomposition(T, **call)
             except Exception as e:  # noqa
                 _v(rec, "a", dict(sig, **exc_sig(e)), "fit_decomposition raised %r" % (e,), case, script=scr)
                 rec.outcome("exception")
@@ -178,7 +191,7 @@ def run_unit(unit, rec):
         elif np.max(np.abs(Bp - (P @ X @ Abar.T + c0))) > 1e-9 * (1 + np.max(np.abs(Bp))):
             bad = ("e", "returned fitted capture is not the model's capture of opacities times intensities")
         else:
-            loss = lambda X_, P_: float(np.linalg.norm(wv * (P_ @ X_ @ Abar.T - Bb)))  # noqa  (weighted error)
+            loss = lambda X_, P_: float(np.linalg.norm(Wm * (P_ @ X_ @ Abar.T - Bb)))  # noqa  (weighted error)
             # f: descent on every observed iteration
             if losses:
                 inc = np.diff(losses)
@@ -195,8 +208,8 @@ def run_unit(unit, rec):
                     G = (X @ Abar.T).T  # m x layers
                     worst = 0.0
                     for i in range(len(T)):
-                        opt, _ = O.box_lsq(G, Bb[i], np.full(layers, lbp), np.full(layers, ubp), w=wv)
-                        worst = max(worst, float(np.linalg.norm(wv * (P[i] @ X @ Abar.T - Bb[i]))) - opt)
+                        opt, _ = O.box_lsq(G, Bb[i], np.full(layers, lbp), np.full(layers, ubp), w=Wm[i])
+                        worst = max(worst, float(np.linalg.norm(Wm[i] * (P[i] @ X @ Abar.T - Bb[i]))) - opt)
                     rec.stat_max("last_P_excess", worst)
                     if worst > ((1e-3 + 1e-3 * final) if accurate else (2e-2 + 0.02 * final)):
                         bad = ("g", "an opacity row is not optimal given the final intensities (excess residual %.4g)" % worst)
@@ -238,7 +251,13 @@ def run_unit(unit, rec):
                 rec.trans()
                 with warnings.catch_warnings():
                     warnings.simplefilter("ignore")
-                    X2, P2, _ = est.fit_decomposition(T, **call)
+                    if registered:
+                        est_r2 = copy.deepcopy(est)
+                        est_r2.register_targets(T, Wm)
+                        est_r2.fit_decomposition(**call)
+                        X2, P2 = est_r2.X, est_r2.P
+                    else:
+                        X2, P2, _ = est.fit_decomposition(T, **call)
                 if _verif:
                     rec.trans(len([e for e in _verif.drain() if e.get("kind") == "decomposition_iter"]))
                 if not (np.array_equal(X, X2) and np.array_equal(P, P2)):
